@@ -141,7 +141,20 @@ class DecoderTable:
         for ev in summary['events']:
             kind, guard = ev[0], ev[1]
             line = ev[-1]
-            if kind == 'expr':
+            if kind == 'expr' and ev[2][0] == 'call' and ev[2][1][0] == 'attr' and ev[2][1][2] == 'extend' and ev[2][1][1][0] == 'attr' and ev[2][1][1][2] == 'fields' \
+                    and len(ev[2][2]) == 1 and ev[2][2][0][0] in ('list', 'tuple') and all(is_call_to(x, 'NMEA2000Field') for x in ev[2][2][0][1]):
+                # fields.extend([F1, F2, ..]) is fields.append(F1); fields.append(F2); ..
+                t = ev[2]
+                owner = t[1][1][1]
+                if self.msg is None and is_call_to(owner, 'NMEA2000Message'):
+                    self.msg = owner
+                elif owner != self.msg:
+                    self.problems.append(f"line {line}: fields appended to something that is not the message under construction")
+                for x in t[2][0][1]:
+                    args, probs = bind_ctor(x, field_order)
+                    self.problems.extend(f"line {line}: {p}" for p in probs)
+                    self.rows.append({'ctor': x, 'args': {k: canon(v) for k, v in args.items()}, 'line': line, 'guard': guard})
+            elif kind == 'expr':
                 t = ev[2]
                 if (t[0] == 'call' and t[1][0] == 'attr' and t[1][2] == 'append' and t[1][1][0] == 'attr' and t[1][1][2] == 'fields'
                         and len(t[2]) == 1 and is_call_to(t[2][0], 'NMEA2000Field')):
